@@ -606,7 +606,7 @@ func opUnimplemented(g *G) bool {
 func opBurnRegen(g *G) bool {
 	amt := fmt.Sprint(1 + g.R.Intn(1000))
 	if g.bad() {
-		amt = []string{"0", "-5", "1.5", "99999999999999999999999"}[g.R.Intn(4)]
+		amt = []string{"0", "-5", "1.5", "99999999999999999999999", "0x1f", "017", "1_0", "08", "0b11"}[g.R.Intn(9)]
 	}
 	g.Do(g.App.MsgBurnRegen(g.user(), amt, "burn"), "burn regen "+amt)
 	return true
